@@ -11,9 +11,12 @@ import (
 	"time"
 
 	"github.com/buchgr/bazel-remote/v2/cache"
+	"github.com/buchgr/bazel-remote/v2/cache/disk"
+	pb "github.com/buchgr/bazel-remote/v2/genproto/build/bazel/remote/execution/v2"
 	"pgregory.net/rapid"
 
 	"verif/harness/internal/gen"
+	"verif/harness/internal/inv"
 	"verif/harness/internal/rt"
 	"verif/harness/internal/stack"
 )
@@ -133,6 +136,86 @@ func TestC07OverlappingStreams(t *testing.T) {
 		}
 		if len(problems) > 0 {
 			t.Fatalf("a read did not return the whole value of its key (storage=%s codec=%s GOMAXPROCS=%d, %d readers x %d reads):\n%s", storage, codec, procs, nreaders, rounds, problems[0])
+		}
+	})
+}
+
+// TestC07LookupStorm: many goroutines doing nothing but existence checks and
+// reads (operations that look read-only but promote entries in the recency
+// list) plus a few uploads, on a handful of keys. Run under the race
+// detector in both tiers; without it the index is inspected afterwards
+// (list length = map size, accounting).
+func TestC07LookupStorm(t *testing.T) {
+	rt.Check(t, rt.N(6, 60), func(t *rapid.T) {
+		storage := rapid.SampledFrom([]string{"zstd", "uncompressed"}).Draw(t, "storage")
+		s, err := stack.New(stack.Opts{Storage: storage, NoServers: true})
+		if err != nil {
+			t.Fatal(err)
+		}
+		defer s.Close()
+		nkeys := rapid.IntRange(4, 40).Draw(t, "keys")
+		var blobs [][]byte
+		var ds []*pb.Digest
+		for i := 0; i < nkeys; i++ {
+			d := gen.Expand(uint64(i)+300, 10+i, "rand")
+			blobs = append(blobs, d)
+			ds = append(ds, &pb.Digest{Hash: gen.SHA(d), SizeBytes: int64(len(d))})
+			if err := s.Cache.Put(context.Background(), cache.CAS, gen.SHA(d), int64(len(d)), bytes.NewReader(d)); err != nil {
+				t.Fatal(err)
+			}
+		}
+		workers := rapid.IntRange(2, 8).Draw(t, "workers")
+		rounds := rapid.IntRange(20, 200).Draw(t, "rounds")
+		mix := rapid.SampledFrom([]string{"contains", "findmissing", "contains+findmissing", "all"}).Draw(t, "mix")
+		E.Case(fmt.Sprintf("storm|%s|%d|%d|%s", storage, workers, nkeys, mix), true, "engine=lookup-storm", "storm-mix="+mix)
+		var wg sync.WaitGroup
+		for w := 0; w < workers; w++ {
+			wg.Add(1)
+			go func(w int) {
+				defer wg.Done()
+				for i := 0; i < rounds; i++ {
+					k := (w*7 + i*3) % nkeys
+					h := ds[k].Hash
+					switch {
+					case mix == "findmissing" || (mix != "contains" && i%3 == 1):
+						cp := make([]*pb.Digest, 0, len(ds))
+						for j := range ds {
+							cp = append(cp, &pb.Digest{Hash: ds[(j+k)%nkeys].Hash, SizeBytes: ds[(j+k)%nkeys].SizeBytes})
+						}
+						_, _ = s.Cache.FindMissingCasBlobs(context.Background(), cp)
+					case mix == "all" && i%5 == 2:
+						rc, _, _ := s.Cache.Get(context.Background(), cache.CAS, h, -1, 0)
+						if rc != nil {
+							_, _ = io.Copy(io.Discard, rc)
+							rc.Close()
+						}
+					case mix == "all" && i%11 == 3:
+						_ = s.Cache.Put(context.Background(), cache.CAS, h, int64(len(blobs[k])), bytes.NewReader(blobs[k]))
+					default:
+						_, _ = s.Cache.Contains(context.Background(), cache.CAS, h, -1)
+					}
+				}
+			}(w)
+		}
+		done := make(chan struct{})
+		go func() { wg.Wait(); close(done) }()
+		select {
+		case <-done:
+		case <-time.After(300 * time.Second):
+			s.Abandon()
+			fmt.Println("VERIF-INFRA? lookup storm did not finish in 300s")
+			t.Fatalf("lookup storm did not finish within 300 s")
+		}
+		if err := inv.SettledAccounting(s, 0, 3*time.Second); err != nil {
+			t.Fatalf("after %d goroutines x %d lookups (%s) on %d keys: %v", workers, rounds, mix, nkeys, err)
+		}
+		if n := disk.VerifIndexMapLen(s.Cache); n != nkeys {
+			t.Fatalf("after the lookup storm the index holds %d keys, %d were uploaded and nothing was evicted", n, nkeys)
+		}
+		for k := range ds {
+			if ok, _ := s.Cache.Contains(context.Background(), cache.CAS, ds[k].Hash, ds[k].SizeBytes); !ok {
+				t.Fatalf("after the lookup storm blob %d is reported absent", k)
+			}
 		}
 	})
 }
